@@ -293,4 +293,10 @@ def run(prog: Program, col: Collector, tier: str, refs: Optional[Refs] = None, c
     # what sequential / moment_matching / the recursive eager rule do with the reduced variables (shared with C01, C02, C08)
     algebra.r_exact_counts(prog, col, refs, cat, "R03.8")
     algebra.r_reduce_rules_keep_absent_vars(prog, col, refs, cat, "R03.9")
+    col.rule("R03.10", "fusing nested substitutions (a normalize / lazy rewrite) keeps every outer pair and hands the whole outer substitution to every inner value", floor=2)
+    from . import c04
+    c04._fusion(prog, col, refs, cat)
+    # the kernel behind the eager (logaddexp, add) contraction that a normalized expression is reinterpreted with
+    from . import numerics
+    numerics.run(prog, col, refs, cat, rule_log="R03.11", rule_safe=None)
     return col
